@@ -224,6 +224,9 @@ def _update_perm_decompr_indices(
         combs_perm, combs3333 = _N3N3N3N3_to_NNNNand3333(combs_perm, natom)
         decompr_idx_combs_perm = atomic_decompr_idx[combs_perm] * 81 + combs3333
         decompr_idx_combs_perm = decompr_idx_combs_perm.reshape(-1, n_perms_sym)
+        # Each row holds a whole permutation orbit, so its minimum is the same for
+        # every row of that orbit and orbits cannot be split by the write order.
+        orbit_reps = decompr_idx_combs_perm.min(axis=1)
         for orbit_components in decompr_idx_combs_perm.T:
-            perm_decompr_idx[orbit_components] = decompr_idx_combs_perm[:, 0]
+            perm_decompr_idx[orbit_components] = orbit_reps
     return perm_decompr_idx
